@@ -45,7 +45,7 @@ RULE = ("one case = one minimize_oc run on f = sum c_i/x_i: 1-4 variable signals
 PROBES = ["unreachable_volume", "variable_on_bound", "move_limit_active", "plateau_root_set", "multiplier_outside_bracket",
           "per_variable_bounds", "per_variable_move", "float_signal", "arr1_signal", "vector_signal", "multi_signal",
           "maxvol_none", "maxvol_above_sum_xmax", "maxvol_below_sum_xmin", "start_on_bound", "early_stop_by_tolerance",
-          "convergence_judged", "final_design_not_evaluated", "per_signal_network"]
+          "convergence_judged", "final_design_not_evaluated", "per_signal_network", "multiplier_far_below_bracket_resolution"]
 FAULT_KINDS = []
 COMPONENTS = {"real": ["pymoto.minimize_oc", "pymoto.Network / Module backpropagation", "pymoto.utils._concatenate_to_array"],
               "stub": ["environment network f = sum c_i/x_i with recorder module (harness code by design)"]}
@@ -137,6 +137,14 @@ def gen(rng, idx, tier):
         l1l2tol=float(rng.choice([1e-4, 1e-4, 1e-6, 1e-9])),
         tolx=0.0 if tol0 else 1e-4, tolf=0.0 if tol0 else 1e-4,
         maxit=2 * steps + 8, net=str(rng.choice(["single", "per_signal"])), ops=[])
+    if rng.random() < 0.15:
+        # objective of another magnitude with the multiplier bracket / tolerance the user scales along with it: the multiplier is
+        # ~1e-14 .. 1e-6 (or 1e8) and has to be resolved far below the resolution of floating point numbers near l2init.
+        # Volume target = start volume (always reachable; a bisection that runs into the upper end of a bracket whose floating point
+        # spacing exceeds l1l2tol does not terminate -- such inputs are not admissible)
+        cs = float(rng.choice([1e-14, 1e-10, 1e-6, 1e6]))
+        case.update(cscale=cs, l1init=0.0, l1l2tol=cs * float(rng.choice([1e-6, 1e-4])), l2init=float(rng.choice([1e5, cs * 1e7])) if cs < 1 else cs * 1e7,
+                    maxvol="none", x0=str(rng.choice(["rand", "mid", "mixed", "upper"])), fine=True)
     return case
 
 
@@ -299,6 +307,8 @@ def run(case):
     mvol = float(np.sum(x0)) if maxvol is None else maxvol
     if maxvol is None:
         probe("maxvol_none")
+    if case.get("fine"):
+        probe("multiplier_far_below_bracket_resolution")
     if mvol > hi.sum():
         probe("maxvol_above_sum_xmax")
     if mvol < lo.sum():
@@ -377,7 +387,7 @@ def run(case):
         V1, V2 = float(_target(l1, c, lok, hik).sum()), float(_target(l2, c, lok, hik).sum())
         reachable = (V1 >= mvol - delta) and (V2 <= mvol + delta)
         lam_a, lam_b = root_set(c, lok, hik, mvol, l1, l2, delta)
-        tol_eff = tol * (1 + 1e-9) + 1e-13 * max(lam_b, 1.0)
+        tol_eff = tol * (1 + 1e-9) + 1e-13 * lam_b
         lam_lo, lam_hi = max(lam_a - tol_eff, l1), min(lam_b + tol_eff, l2)
         t_hi, t_lo = _target(lam_lo, c, lok, hik), _target(lam_hi, c, lok, hik)      # largest / smallest admissible design
         plateau = (lam_b - lam_a) > 10 * tol_eff
@@ -465,7 +475,7 @@ def _convergence(case, res, nlog, designs, c, lo, hi, mv, mvol, l1, l2, tol, del
         skip("convergence_not_judged_multiplier_outside_bracket")
         res["trace"].append("conv:skip-bracket")
         return
-    tol_eff = tol * (1 + 1e-9) + 1e-13 * max(lam_b, 1.0)
+    tol_eff = tol * (1 + 1e-9) + 1e-13 * lam_b
     t_hi = _target(max(lam_a - 2 * tol_eff, l1), c, lo, hi)
     t_lo = _target(min(lam_b + 2 * tol_eff, l2), c, lo, hi)
     x = np.concatenate(designs[-1][0])
